@@ -12,6 +12,7 @@ import (
 	"math/big"
 	"os"
 	"sort"
+	"sync"
 
 	"github.com/dominant-strategies/go-quai/common"
 	"github.com/dominant-strategies/go-quai/consensus"
@@ -103,11 +104,12 @@ var (
 )
 
 type Node struct {
-	Cfg    NodeConfig
-	Cores  [3]*core.Core // prime, region, zone
-	DBs    [3]ethdb.Database
-	Logger *log.Logger
-	Net    Network
+	coresMu sync.RWMutex // guards Cores against the start-up goroutines of the cores themselves
+	Cfg     NodeConfig
+	Cores   [3]*core.Core // prime, region, zone
+	DBs     [3]ethdb.Database
+	Logger  *log.Logger
+	Net     Network
 	// blocks this node has produced or received, per context view
 	stopped bool
 }
@@ -122,7 +124,12 @@ type backend struct {
 	ctx int
 }
 
-func (b *backend) c() *core.Core { return b.n.Cores[b.ctx] }
+// c is called from goroutines the cores spawn while StartNode is still wiring the node: the slot is read under the node's lock.
+func (b *backend) c() *core.Core {
+	b.n.coresMu.RLock()
+	defer b.n.coresMu.RUnlock()
+	return b.n.Cores[b.ctx]
+}
 
 func (b *backend) AddPendingEtxs(p types.PendingEtxs) error { return b.c().AddPendingEtxs(p) }
 func (b *backend) AddPendingEtxsRollup(p types.PendingEtxsRollup) error {
@@ -257,7 +264,9 @@ func StartNode(cfg NodeConfig) (*Node, error) {
 			}
 			return nil, fmt.Errorf("NewCore ctx %d: %w", ctx, err)
 		}
+		n.coresMu.Lock()
 		n.Cores[ctx] = c
+		n.coresMu.Unlock()
 	}
 	p, r, z := &backend{n, 0}, &backend{n, 1}, &backend{n, 2}
 	n.Cores[0].SetSubInterface(p2b(r), LocRegion)
